@@ -116,6 +116,10 @@ def prepare_scratch(tag, files):
     r = run(["rsync", "-a", "--exclude", "target", "--exclude", ".git", REPO + "/", repo + "/"])
     if r.returncode != 0:
         raise SystemExit("rsync failed: " + r.stdout)
+    # (the str::find model in h_pa.rs names the unstable Pattern trait; Kani builds with a nightly)
+    lib = os.path.join(repo, "src", "lib.rs")
+    txt = open(lib, encoding="utf-8").read()
+    open(lib, "w", encoding="utf-8").write("#![cfg_attr(kani, feature(pattern))]\n" + txt)
     for f in files:
         src, mod = ATTACH[f]
         with open(os.path.join(repo, src), "a", encoding="utf-8") as fh:
@@ -465,10 +469,23 @@ def verify_one(h, table, outdir):
         res["cex_values"] = vals
         return res
     if unwind:
-        if h.get("unwind_is_violation") == "1":
-            res.update(verdict="FAILURE", failed_property=unwind[0].get("property"),
-                       failed_desc="loop exceeds the step bound the property states: " + unwind[0].get("description", ""),
-                       cex_values=None, n_failed=len(unwind))
+        # only the designated loop counts as "the program's effects never end"; any other loop
+        # that needs more unwinding is a bound chosen too small by the harness = inconclusive
+        key = h.get("unwind_is_violation")
+        hit = [u for u in unwind if key and key in ((u.get("sourceLocation") or {}).get("function", "") + " " + u.get("property", ""))]
+        if hit and len(hit) == len(unwind):
+            res.update(verdict="FAILURE", failed_property=hit[0].get("property"),
+                       failed_desc="loop exceeds the step bound the property states: %s [in %s]"
+                                   % (hit[0].get("description", ""), (hit[0].get("sourceLocation") or {}).get("function", "")),
+                       cex_values=None, n_failed=len(hit), step_bound=True)
+            return res
+        u0 = unwind[0]
+        res.update(verdict="INCONCLUSIVE",
+                   detail="unwinding assertion failed: %s (%s) [in %s]" % (u0.get("property"), u0.get("description"),
+                                                                          (u0.get("sourceLocation") or {}).get("function", "")))
+        return res
+    if False:
+        if False:
             return res
         res.update(verdict="INCONCLUSIVE",
                    detail="unwinding assertion failed: %s (%s)" % (unwind[0].get("property"), unwind[0].get("description")))
@@ -722,7 +739,7 @@ def main():
                 rp = os.path.join(VERIF, "replays", prop, r["name"] + ".json")
                 rec = dict(property=prop, harness=r["full"], values=vals or [],
                            failed=r.get("failed_desc"), at=r.get("failed_loc"))
-                if vals is None and h.get("unwind_is_violation") == "1":
+                if vals is None and r.get("step_bound"):
                     rec["note"] = "step-bound violation: the loop did not finish within the unwinding bound"
                     rep = {"debug": "NOT-REPLAYABLE"}
                 elif vals is None:
